@@ -308,6 +308,33 @@ Definition ga_eval (f_v : f64) : fitness := if F64.is_finite f_v then [f_v] else
 (* combine(fitness_t{-penalty_(prg)}, eva_(prg)) *)
 Definition constrained_eval (pen : f64) (base : fitness) : fitness := [F64.neg pen] ++ base.
 
+(* ---- test_evaluator (kernel/evaluator.tcc), types `fixed` and `distinct` ---
+   (`random` seeds the PRNG with the same index and draws: C07's model)      *)
+Section TestEvaluator.
+Variable prog : Type.
+Variable prog_eqb : prog -> prog -> bool.          (* T::operator== *)
+
+(* std::find(buffer_.begin(), buffer_.end(), prg) - buffer_.begin() *)
+Fixpoint find_index (buf : list prog) (p : prog) (i : Z) : option Z :=
+  match buf with
+  | [] => None
+  | x :: r => if prog_eqb x p then Some i else find_index r p (i + 1)
+  end.
+
+Definition test_fixed (p : prog) : fitness := [F64.of_Z 0].
+(* new programs are appended to buffer_; the fitness is the position *)
+Definition test_distinct (buf : list prog) (p : prog) : list prog * fitness :=
+  match find_index buf p 0 with
+  | Some i => (buf, [F64.of_Z i])
+  | None => (buf ++ [p], [F64.of_Z (Z.of_nat (length buf))])
+  end.
+Fixpoint test_distinct_run (buf : list prog) (ps : list prog) : list fitness :=
+  match ps with
+  | [] => []
+  | p :: r => let (b', f) := test_distinct buf p in f :: test_distinct_run b' r
+  end.
+End TestEvaluator.
+
 (* ---- executable oracles of the property (used by the check on the
         implementation's outputs) --------------------------------------- *)
 Definition wrong_by (wrong : example -> bool) (l : list example) : list example :=
